@@ -177,3 +177,232 @@ Section Overlap.
     rewrite (exec_sels_flat f objty ov A path la Ha). reflexivity.
   Qed.
 End Overlap.
+
+(* ---- overlapping identical leaf fields: the data is the key-wise merge of the two results ---- *)
+Definition members_key_in (k : name) (l : list (bytes * json)) : bool :=
+  existsb (fun kv => bytes_eqb k (fst kv)) l.
+(* key-wise merge: the members of [la], then the members of [lb] whose key is new *)
+Definition merge_members (la lb : list (bytes * json)) : list (bytes * json) :=
+  la ++ filter (fun kv => negb (members_key_in (fst kv) la)) lb.
+Definition merge_opt (oa ob : option (list (bytes * json))) : option (list (bytes * json)) :=
+  match oa, ob with Some la, Some lb => Some (merge_members la lb) | _, _ => None end.
+
+Definition sel_args (s : selection) : list argument := match s with SField _ _ a _ _ => a | _ => [] end.
+Definition is_field (s : selection) : bool := match s with SField _ _ _ _ _ => true | _ => false end.
+(* fields with the same response key in the two lists are the same field with the same arguments
+   (FieldsInSetCanMerge for leaves) *)
+Definition overlap_same (la lb : list selection) : Prop :=
+  forall sa sb, In sa la -> In sb lb -> sel_key sa = sel_key sb ->
+                sel_fname sa = sel_fname sb /\ sel_args sa = sel_args sb.
+
+Lemma filter_comm {A} (p q : A -> bool) l : filter p (filter q l) = filter q (filter p l).
+Proof.
+  induction l as [|x l IH]; [reflexivity|]. cbn [filter].
+  destruct (q x) eqn:Eq, (p x) eqn:Ep; cbn [filter]; rewrite ?Eq, ?Ep, IH; reflexivity.
+Qed.
+
+Lemma groups_filter_key (q : name -> bool) : forall n l,
+    (length l <= n)%nat ->
+    groups (filter (fun x => q (sel_key x)) l) = filter (fun g : grp => q (fst (fst g))) (groups l).
+Proof.
+  induction n as [|n IH]; intros l Hlen.
+  - destruct l; [reflexivity|simpl in Hlen; lia].
+  - destruct l as [|s rest]; [reflexivity|].
+    rewrite (groups_cons s rest). cbn [filter fst].
+    assert (Hlen' : (length (filter (fun x => negb (same_key (sel_key s) x)) rest) <= n)%nat).
+    { pose proof (filter_length_le (fun x => negb (same_key (sel_key s) x)) rest). simpl in Hlen. lia. }
+    destruct (q (sel_key s)) eqn:Eq.
+    + rewrite groups_cons. f_equal.
+      * f_equal. f_equal. f_equal. apply filter_filter_imp.
+        intros x Hx. unfold same_key in Hx. apply bytes_eqb_eq in Hx. rewrite Hx. exact Eq.
+      * rewrite filter_comm. apply IH. exact Hlen'.
+    + rewrite <- (IH _ Hlen'). f_equal. symmetry. apply filter_filter_imp.
+      intros x Hx. unfold same_key. destruct (bytes_eqb (sel_key x) (sel_key s)) eqn:E; [|reflexivity].
+      apply bytes_eqb_eq in E. rewrite E, Eq in Hx. discriminate.
+Qed.
+
+Lemma sels_go_filter ef p (q : name -> bool) gs :
+  Forall (fun g : grp => q (fst (fst g)) = false ->
+                         c_viol (ef (fst (fst g)) (snd (fst g)) (snd g) (p ++ [PN (fst (fst g))])) = false) gs ->
+  fst (sels_go ef p (filter (fun g : grp => q (fst (fst g))) gs)) =
+  option_map (filter (fun kv : bytes * json => q (fst kv))) (fst (sels_go ef p gs)).
+Proof.
+  induction gs as [|[[key s] subs] rest IH]; intros HF; [reflexivity|].
+  inversion HF as [|? ? Hg Hrest]; subst. cbn [fst snd] in Hg. specialize (IH Hrest).
+  cbn [filter fst]. destruct (q key) eqn:Eq.
+  - cbn [sels_go]. destruct (c_viol (ef key s subs (p ++ [PN key]))); [reflexivity|].
+    destruct (sels_go ef p (filter _ rest)) as [o1 e1]. destruct (sels_go ef p rest) as [o2 e2].
+    cbn [fst] in *. rewrite IH. destruct o2; cbn [option_map filter fst]; [rewrite Eq|]; reflexivity.
+  - cbn [sels_go]. rewrite (Hg eq_refl).
+    destruct (sels_go ef p rest) as [o2 e2]. cbn [fst] in *. rewrite IH.
+    destruct o2; cbn [option_map filter fst]; [rewrite Eq|]; reflexivity.
+Qed.
+
+Lemma sels_go_some_noviol ef p gs l errs :
+  sels_go ef p gs = (Some l, errs) ->
+  Forall (fun g : grp => c_viol (ef (fst (fst g)) (snd (fst g)) (snd g) (p ++ [PN (fst (fst g))])) = false) gs.
+Proof.
+  revert l errs. induction gs as [|[[key s] subs] rest IH]; intros l errs H; [constructor|].
+  cbn [sels_go] in H. destruct (c_viol (ef key s subs (p ++ [PN key]))) eqn:Ev; [discriminate|].
+  destruct (sels_go ef p rest) as [[l'|] e2] eqn:Er; [|discriminate].
+  constructor; [exact Ev|apply (IH l' e2); reflexivity].
+Qed.
+
+Lemma sels_go_member_keys ef p gs l errs :
+  sels_go ef p gs = (Some l, errs) ->
+  forall k, members_key_in k l = existsb (fun g : grp => bytes_eqb k (fst (fst g))) gs.
+Proof.
+  revert l errs. induction gs as [|[[key s] subs] rest IH]; intros l errs H k; cbn [sels_go] in H.
+  - injection H as <- <-. reflexivity.
+  - destruct (c_viol (ef key s subs (p ++ [PN key]))); [discriminate|].
+    destruct (sels_go ef p rest) as [[l'|] e2] eqn:Er; [|discriminate].
+    injection H as <- <-. unfold members_key_in. cbn [existsb fst]. f_equal. apply (IH l' e2). reflexivity.
+Qed.
+
+Lemma has_key_groups la k : has_key k la = existsb (fun g : grp => bytes_eqb k (fst (fst g))) (groups la).
+Proof.
+  destruct (has_key k la) eqn:Eh.
+  - symmetry. destruct (existsb _ (groups la)) eqn:Ee; [reflexivity|].
+    (* a field with key k exists, hence a group *)
+    exfalso. revert Eh Ee. generalize (le_n (length la)). generalize (length la) at 2 as n.
+    intros n. revert la. induction n as [|n IH]; intros la Hlen Eh Ee.
+    + destruct la; [discriminate|simpl in Hlen; lia].
+    + destruct la as [|s rest]; [discriminate|]. rewrite groups_cons in Ee. cbn [existsb fst] in Ee.
+      apply orb_false_iff in Ee. destruct Ee as [Ee1 Ee2].
+      unfold has_key in Eh. cbn [existsb] in Eh. unfold same_key in Eh at 1.
+      rewrite bytes_eqb_sym, Ee1 in Eh. cbn [orb] in Eh.
+      apply (IH (filter (fun x => negb (same_key (sel_key s) x)) rest)); [| |exact Ee2].
+      * pose proof (filter_length_le (fun x => negb (same_key (sel_key s) x)) rest). simpl in Hlen. lia.
+      * unfold has_key. rewrite existsb_filter_imp; [exact Eh|].
+        intros y Hy. unfold same_key in *. apply bytes_eqb_eq in Hy. rewrite Hy, bytes_eqb_sym, Ee1. reflexivity.
+  - symmetry. destruct (existsb _ (groups la)) eqn:Ee; [|reflexivity].
+    apply existsb_exists in Ee. destruct Ee as (g & Hg & Hk). apply bytes_eqb_eq in Hk.
+    pose proof (groups_has_key la) as HF. rewrite Forall_forall in HF. specialize (HF _ Hg).
+    rewrite <- Hk in HF. congruence.
+Qed.
+
+Lemma groups_Forall_key (P : selection -> Prop) (Q : grp -> Prop) :
+  (forall s same, P s -> Forall (fun x => P x /\ sel_key x = sel_key s) same ->
+                  Q (sel_key s, s, flat_map sel_subs (s :: same))) ->
+  forall n l, (length l <= n)%nat -> Forall P l -> Forall Q (groups l).
+Proof.
+  intros HQ. induction n as [|n IH]; intros l Hlen HP.
+  - destruct l; [constructor|simpl in Hlen; lia].
+  - destruct l as [|s rest]; [constructor|].
+    rewrite groups_cons. inversion HP as [|? ? Hs Hrest]; subst.
+    rewrite Forall_forall in Hrest.
+    constructor.
+    + apply HQ; [exact Hs|]. apply Forall_forall. intros x Hx. apply filter_In in Hx. destruct Hx as [Hx Hk].
+      split; [apply Hrest; exact Hx|]. unfold same_key in Hk. apply bytes_eqb_eq in Hk. exact Hk.
+    + apply IH.
+      * pose proof (filter_length_le (fun x => negb (same_key (sel_key s) x)) rest). simpl in Hlen. lia.
+      * apply Forall_forall. intros x Hx. apply filter_In in Hx. apply Hrest. apply Hx.
+Qed.
+
+(* groups of [lb] whose key occurs in [la] carry no sub-selections *)
+Lemma overlap_nosubs_group la lb :
+  overlap_nosubs la lb = true ->
+  Forall (fun g : grp => has_key (fst (fst g)) la = true -> snd g = []) (groups lb).
+Proof.
+  intros Ho. unfold overlap_nosubs in Ho. rewrite forallb_forall in Ho.
+  apply (groups_Forall_key (fun x => In x lb)) with (n := length lb); [|lia|apply Forall_forall; auto].
+  intros s same Hs Hsame Hk. cbn [fst snd] in *.
+  assert (Hall : forall x, In x (s :: same) -> sel_subs x = []).
+  { intros x Hx.
+    assert (Hxl : In x lb /\ sel_key x = sel_key s).
+    { destruct Hx as [<-|Hx]; [split; [exact Hs|reflexivity]|]. rewrite Forall_forall in Hsame. apply Hsame. exact Hx. }
+    destruct Hxl as [Hxl Hkx]. specialize (Ho x Hxl). rewrite Hkx, Hk in Ho. cbn [negb orb] in Ho.
+    destruct (sel_subs x); [reflexivity|discriminate]. }
+  induction (s :: same) as [|x l IH]; [reflexivity|]. cbn [flat_map].
+  rewrite (Hall x (or_introl eq_refl)). cbn [app]. apply IH. intros y Hy. apply Hall. right. exact Hy.
+Qed.
+
+Section OverlapData.
+  Variable sc : schema.
+  Variable U : universe.
+  Variable frags : list fragment.
+  Variable vars : list (bytes * json).
+  Variable md : mode.
+
+  Notation exec_sels' := (exec_sels sc U frags vars md).
+  Notation exec_field' := (exec_field sc U frags vars md).
+  Notation flatten' := (flatten sc frags vars).
+
+  Lemma flatten_all_fields : forall f objty sels fl,
+      flatten' f objty sels = FlatOk fl -> forallb is_field fl = true.
+  Proof.
+    induction f as [|f IH]; intros objty sels fl Hf; [rewrite flatten_0 in Hf; discriminate|].
+    destruct sels as [|s rest]; [rewrite flatten_S_nil in Hf; injection Hf as <-; reflexivity|].
+    rewrite flatten_S_cons in Hf.
+    destruct (flat_here sc frags vars (flatten' f objty) objty s) as [l1|e] eqn:Eh; [|discriminate].
+    cbn [flat_seq] in Hf. destruct (flatten' f objty rest) as [l2|e] eqn:Er; [|discriminate].
+    injection Hf as <-. rewrite forallb_app. apply andb_true_iff. split; [|apply (IH objty rest); exact Er].
+    destruct s as [a n args dirs ss|cond dirs ss|n dirs]; cbn [flat_here] in Eh.
+    - destruct (included vars dirs); injection Eh as <-; reflexivity.
+    - destruct (negb (included vars dirs)); [injection Eh as <-; reflexivity|].
+      destruct cond as [c|]; [|apply (IH objty ss); exact Eh].
+      destruct (kind_of sc c).
+      + destruct (type_applies sc objty c); [apply (IH objty ss); exact Eh|injection Eh as <-; reflexivity].
+      + destruct (bytes_eqb c [95; 69; 110; 116; 105; 116; 121]); [apply (IH objty ss); exact Eh|discriminate].
+    - destruct (negb (included vars dirs)); [injection Eh as <-; reflexivity|].
+      destruct (find_frag n frags) as [fr|]; [|discriminate].
+      destruct (type_applies sc objty (fr_type fr)); [apply (IH objty (fr_sels fr)); exact Eh|injection Eh as <-; reflexivity].
+  Qed.
+
+  (* a field's result depends on the selection only through its name and arguments *)
+  Lemma exec_field_same f objty ov key sa sb subs p :
+    is_field sa = true -> is_field sb = true ->
+    sel_fname sa = sel_fname sb -> sel_args sa = sel_args sb ->
+    exec_field' f objty ov key sa subs p = exec_field' f objty ov key sb subs p.
+  Proof.
+    intros Ha Hb Hn Hargs. destruct f as [|f]; [reflexivity|]. rewrite !exec_field_S.
+    destruct sa as [a1 n1 args1 d1 s1| |], sb as [a2 n2 args2 d2 s2| |]; try discriminate.
+    cbn in Hn, Hargs. subst. reflexivity.
+  Qed.
+
+  (* E2, overlapping keys, data level: if overlapping fields are leaves without sub-selections (both
+     ways) and are the same field with the same arguments, the members of the merged execution are
+     the key-wise merge of the members of the two executions; null propagates from either *)
+  Theorem exec_split_overlap_data f objty ov A B path la lb :
+    flatten' f objty A = FlatOk la -> flatten' f objty B = FlatOk lb ->
+    flat_no_oof (flatten' f objty (A ++ B)) = true ->
+    overlap_nosubs la lb = true -> overlap_nosubs lb la = true -> overlap_same la lb ->
+    fst (exec_sels' f objty ov (A ++ B) path) =
+    merge_opt (fst (exec_sels' f objty ov A path)) (fst (exec_sels' f objty ov B path)).
+  Proof.
+    intros Ha Hb Hab Ho1 Ho2 Hsame.
+    rewrite (exec_split_overlap_partial sc U frags vars md f objty ov A B path la lb Ha Hb Hab Ho1).
+    rewrite (exec_sels_flat sc U frags vars md f objty ov A path la Ha).
+    rewrite (exec_sels_flat sc U frags vars md f objty ov B path lb Hb).
+    unfold exec_flat, split_merge, merge_opt.
+    set (ef := exec_field' (pred f) objty ov).
+    destruct (sels_go ef path (groups la)) as [[lam|] ea] eqn:HA; cbn [fst snd]; [|reflexivity].
+    (* the new-key groups of lb are the groups of lb filtered by key *)
+    unfold new_keys.
+    rewrite (groups_filter_key (fun k => negb (has_key k la)) (length lb) lb (le_n _)).
+    rewrite (sels_go_filter ef path (fun k => negb (has_key k la)) (groups lb)).
+    - destruct (sels_go ef path (groups lb)) as [[lbm|] eb]; cbn [fst option_map]; [|reflexivity].
+      unfold merge_members. f_equal. f_equal. apply filter_ext'. intros [k v]. cbn [fst]. f_equal.
+      rewrite (sels_go_member_keys ef path (groups la) lam ea HA k). apply has_key_groups.
+    - (* overlapping groups of lb do not violate: they compute what la's group computes *)
+      pose proof (sels_go_some_noviol ef path (groups la) lam ea HA) as HnvA.
+      pose proof (groups_first_in lb) as HinB. pose proof (groups_key_of lb) as HkB.
+      pose proof (overlap_nosubs_group la lb Ho1) as HsB.
+      pose proof (groups_first_in la) as HinA. pose proof (groups_key_of la) as HkA.
+      pose proof (overlap_nosubs_group lb la Ho2) as HsA.
+      pose proof (groups_has_key lb) as HhB.
+      pose proof (flatten_all_fields f objty A la Ha) as HfA. pose proof (flatten_all_fields f objty B lb Hb) as HfB.
+      rewrite forallb_forall in HfA, HfB.
+      rewrite Forall_forall in *. intros [[kb sb] subsb] Hgb Hq. cbn [fst snd] in *.
+      apply negb_false_iff in Hq.
+      specialize (HinB _ Hgb). specialize (HkB _ Hgb). specialize (HsB _ Hgb Hq). specialize (HhB _ Hgb).
+      cbn [fst snd] in *. subst subsb.
+      rewrite has_key_groups in Hq. apply existsb_exists in Hq. destruct Hq as ([[ka sa] subsa] & Hga & Hk).
+      cbn [fst] in Hk. apply bytes_eqb_eq in Hk. subst ka.
+      specialize (HinA _ Hga). specialize (HkA _ Hga). specialize (HsA _ Hga HhB). specialize (HnvA _ Hga).
+      cbn [fst snd] in *. subst subsa.
+      destruct (Hsame sa sb HinA HinB) as [Hn Hargs]; [congruence|].
+      unfold ef in *. rewrite <- (exec_field_same (pred f) objty ov kb sa sb [] _ (HfA _ HinA) (HfB _ HinB) Hn Hargs).
+      exact HnvA.
+  Qed.
+End OverlapData.
